@@ -77,6 +77,27 @@ parts.append("Obligations per rule on this tree (from `evidence/*.json` of the l
              "---------------------------------------------------------------------------\n")
 for f in ("06_selftest.md", "07_false_alarms.md", "08_limits.md", "09_cost_tools.md"):
     parts.append((SRC / f).read_text())
-(V / "DESIGN.md").write_text("\n".join(parts))
+doc = "\n".join(parts)
+# numbers the document quotes are computed, not typed
+n_fix = sum(1 for f in kf if str(f.get("status", "")).startswith("fixed"))
+open_keys = [f for f in kf if f.get("status") == "open"]
+rounds = {"a": [s for n, s in status.items() if "agentb" not in n],
+          "b": [s for n, s in status.items() if "agentb" in n]}
+weak = ("C03", "C09", "C10", "C16", "C18")
+rt = ["| round | changes | caught at first run | caught now |", "|---|---:|---:|---:|"]
+for r, ss in rounds.items():
+    rt.append(f"| {r} | {len(ss)} | {sum(x['first_run'] == 'caught' for x in ss)} | "
+              f"{sum(bool(x['now']) for x in ss)} |")
+for r in ("a", "b"):
+    ss = [s for n, s in status.items() if n.split("-")[0] in weak
+          and (("agentb" in n) == (r == "b"))]
+    rt.append(f"| {r}, only C03 C09 C10 C16 C18 | {len(ss)} | "
+              f"{sum(x['first_run'] == 'caught' for x in ss)} | "
+              f"{sum(bool(x['now']) for x in ss)} |")
+from pta.selftest.twins import TWINS   # noqa: E402
+doc = (doc.replace("{N_FIXES}", str(n_fix)).replace("{N_FOUND}", str(n_fix + 2))
+       .replace("{N_OPEN_KEYS}", str(len(open_keys))).replace("{ROUND_TABLE}", "\n".join(rt))
+       .replace("{N_TWINS}", str(len(TWINS))).replace("{N_SEEDS}", str(len(status))))
+(V / "DESIGN.md").write_text(doc)
 subprocess.run([sys.executable, str(V / "tools/gen_design_tables.py")], check=True)
 print("DESIGN.md:", len((V / "DESIGN.md").read_text().splitlines()), "lines")
